@@ -87,6 +87,8 @@ def gen_model(c):
         mode = modes[(c.get("idx", 0) // 3) % len(modes)]  # every option class is reached deterministically
         symc = mode in ("sym", "ground", "sym_right") or (mode in ("compressible", "projected") and rng.random() < 0.5)
         ns = int(rng.choice([1, 1, 2, 3]))
+        if mode in ("rotational", "plain"):
+            ns = 3  # running offsets over the surface list only show from the third surface on
         surfs = []
         for s in range(ns):
             half = ("right" if (mode == "sym_right" or rng.random() < 0.3) else "left") if symc else "full"
